@@ -177,6 +177,17 @@ def clvl(n, ovs, path, default):
     return obs + [t(n - 1, ovs[1:], path, default)]
 
 
+@task()
+def cfan(ovs):
+    """Siblings under one parent, each with its own override (or none), read the same path with the same default
+    through a default argument; the parent reads it in its body too."""
+    out = [get_context("a.b", 7)]
+    for i, ov in enumerate(ovs):
+        t = ctxdef if ov is None else ctxdef.update_context(ov)
+        out.append(t(i))
+    return out
+
+
 @task(memory=1, vcpus=1)
 def olvl(n, plan, info=JobInfo()):
     here = _probe(info)
